@@ -323,6 +323,8 @@ def run_static_layout(case, ctx):
             for m in through:
                 if m in (g1, g2) or otl.gdef_class(full, g1) == 3 or otl.gdef_class(full, g2) == 3:
                     continue
+                if not (neutral(m) if S_ is None else ((S_ in sc[m]) or neutral(m))):
+                    continue  # the mark is not part of a run of this script: which lookups reach (g1, mark) may depend on the other members of its kerning group
                 xa = otl.eval_pair_across(full, g1, m, g2, tag)
                 xb = otl.eval_pair_across(sub, g1, m, g2, tag)
                 if xa != xb:
